@@ -437,3 +437,13 @@ pub fn gen_val(rng: &mut crate::rng::Rng, sig: &str) -> Val {
 pub fn gen_args(rng: &mut crate::rng::Rng, sig: &str) -> Vec<Val> {
     crate::wire::split_sig(sig).unwrap().iter().map(|s| gen_val(rng, s)).collect()
 }
+
+/// Interface E: a third marker interface.
+pub struct E(pub u32);
+
+#[interface(name = "org.sim.E")]
+impl E {
+    fn whoami(&self) -> u32 {
+        self.0
+    }
+}
